@@ -312,6 +312,8 @@ class CallMixin:
 
     # ---------------------------------------------------- contract at a call --
     def apply_contract(self, st, c: FnContract, args, kwargs, node, cl_frame=None):
+        if getattr(self.reg, "global_cells", False):
+            self.drop_global_cells(st)      # a callee applied by contract may store to module globals (exprs.read_global_cell)
         names = [p[0] for p in c.params]
         amap = {}
         for nme, v in zip(names, args):
